@@ -148,6 +148,7 @@ def spec (c : Case) (o : Obs) : Bool :=
   o.hookView == [] &&
   o.hookCalls.all (fun lv => lv.2 == .new || isOpaqueKey c lv.1.1) &&
   (o.initSubclass.isEmpty || (demandedLabels c).all (fun l => o.hookCalls.any (·.1 == l))) &&
+  o.callbackDiff == [] &&
   o.runtimeDiff == []
 
 /-- K6: the slotted build looks at the direct bases' own flag, the dict build at the flag resolved along the
